@@ -213,7 +213,14 @@ class StickyAssignmentExecutor:
     def _initialize(self, cluster: ClusterMetadata) -> None:
         self._init_current_assignments(self.members)
 
+        subscribed_topics = set()
+        for member_metadata in self.members.values():
+            subscribed_topics.update(member_metadata.subscription)
         for topic in cluster.topics():
+            if topic not in subscribed_topics:
+                # a partition nobody can consume must not take part in the
+                # "are all subscriptions identical" decision
+                continue
             partitions = cluster.partitions_for_topic(topic)
             if partitions is None:
                 log.warning("No partition metadata for topic %s", topic)
